@@ -1870,7 +1870,8 @@ where
             }
         };
 
-        if !node.order.is_empty() {
+        // a key that occurs twice in the document is only counted once: the first member wins
+        if !node.order.is_empty() && out[node.order[0]].is_none() {
             slice = self.read.slice_unchecked(start, self.read.index());
             let lv = LazyValue::new(slice.into(), status.into());
             for p in &node.order {
